@@ -53,6 +53,22 @@ func (propC03) Gen(r *Rng, run uint64, tier string) *Plan {
 		}
 		log[r.Intn(len(log))].Msg = b
 	}
+	if r.Bool(0.04) && len(p.World.Containers[0].Log) > 0 {
+		// Adjacent records whose local wall-clock second is the same while their
+		// UTC offsets differ (a zone change): the instants are an hour apart.
+		log := p.World.Containers[0].Log
+		i := r.Intn(len(log))
+		a := log[i]
+		a.Off = []int{7200, 3600, -4 * 3600}[r.Intn(3)]
+		b := Record{T: a.T, Msg: append([]byte("after zone change "), a.Msg...), Off: a.Off - 3600}
+		b.TS = a.TS + 3600*sec + r.Int63n(sec-a.TS%sec)
+		if b.TS <= hi2200 {
+			log[i] = a
+			log = append(log[:i+1], append([]Record{b}, log[i+1:]...)...)
+			p.World.Containers[0].Log = log
+			p.Tags["zone_change"] = "1"
+		}
+	}
 	if p.Harness == "engine" {
 		p.Query = "{}"
 		p.Params = Params{Start: 0, End: hi2200 + 10*sec - (hi2200+10*sec)%sec, StepNs: sec, Limit: -1}
@@ -204,6 +220,7 @@ func (propC03) Check(t *testing.T, p *Plan, st *Stats) *Violation {
 		}
 		st.ProbeIf(len(c.Log) == 0, "empty_stream")
 		st.ProbeIf(c.TSStyle == "trimmed", "trimmed_timestamps")
+		st.ProbeIf(c.TSStyle == "offsets" || p.Tags["zone_change"] == "1", "numeric_utc_offsets")
 		if wantErr {
 			st.Observed[faultKindOf(p)]++
 		}
